@@ -284,7 +284,14 @@ func (p *Prog) panicSitesIn(inScope map[string]bool, anyClass bool) []PanicSite 
 					if p.valueAlwaysOfType(x.X, x.AssertedType, 0) {
 						continue
 					}
-					out = append(out, PanicSite{Detector: "D1.unchecked-assertion", Fn: fn, Pos: x.Pos(), Expr: AccessPath(x, 0)})
+					// keyed by function + asserted type (not by the operand expression, which changes with every restructuring
+					// of the function): a reviewed assertion stays reviewed when the code around it is refactored
+					full := AccessPath(x, 0)
+					expr := full
+					if i := strings.LastIndex(full, ".("); i >= 0 {
+						expr = full[i:]
+					}
+					out = append(out, PanicSite{Detector: "D1.unchecked-assertion", Fn: fn, Pos: x.Pos(), Expr: expr, Detail: "unchecked type assertion " + full})
 				case *ssa.Panic:
 					// D5: explicit panic (compiler-generated ones — select without case, range-over-func — have no position)
 					if !x.Pos().IsValid() {
@@ -311,6 +318,10 @@ func (p *Prog) panicSitesIn(inScope map[string]bool, anyClass bool) []PanicSite 
 				}
 				// D7: a number decoded from input used as a slice bound, index or allocation size without a dominating comparison
 				if s := p.inputNumberAsBound(fn, in); s != nil {
+					out = append(out, *s)
+				}
+				// D8: slice converted to an array (pointer) without a dominating test that it is long enough
+				if s := p.sliceToArray(fn, in); s != nil {
 					out = append(out, *s)
 				}
 			}
@@ -971,4 +982,69 @@ func comparedBefore(src ssa.Value, blk *ssa.BasicBlock) bool {
 func isStdPkgPath(path string) bool {
 	first := strings.SplitN(path, "/", 2)[0]
 	return !strings.Contains(first, ".") && first != "fixtures"
+}
+
+// sliceToArray (D8): [N]T(s) / (*[N]T)(s) panics when len(s) < N. Guard: a dominating branch on which len(s) == N or
+// len(s) >= N holds (same slice expression), or the slice is a constant-bounded slicing s[a:b] with b-a >= N of an array.
+func (p *Prog) sliceToArray(fn *ssa.Function, in ssa.Instruction) *PanicSite {
+	x, ok := in.(*ssa.SliceToArrayPointer)
+	if !ok {
+		return nil
+	}
+	pt, ok := x.Type().Underlying().(*types.Pointer)
+	if !ok {
+		return nil
+	}
+	arr, ok := pt.Elem().Underlying().(*types.Array)
+	if !ok || arr.Len() == 0 {
+		return nil
+	}
+	n := arr.Len()
+	lenOf := VPat{Desc: "len(s)", M: func(v ssa.Value) bool {
+		c, ok := stripConv(v).(*ssa.Call)
+		if !ok {
+			return false
+		}
+		b, ok := c.Call.Value.(*ssa.Builtin)
+		return ok && b.Name() == "len" && len(c.Call.Args) == 1 && SameExpr(c.Call.Args[0], x.X, 4)
+	}}
+	if FactHolds(x.Block(), token.EQL, lenOf, IntV(n)) || FactHolds(x.Block(), token.LEQ, IntV(n), lenOf) || FactHolds(x.Block(), token.LSS, IntV(n-1), lenOf) {
+		return nil
+	}
+	// a fresh slice of statically known length: make([]T, k) with k >= N, or arr[:] of a long enough array
+	switch y := x.X.(type) {
+	case *ssa.MakeSlice:
+		if k, ok := ConstInt(y.Len); ok && k >= n {
+			return nil
+		}
+	case *ssa.Slice:
+		if ap, ok := y.X.Type().Underlying().(*types.Pointer); ok {
+			if a, ok := ap.Elem().Underlying().(*types.Array); ok {
+				lo, hi, known := int64(0), a.Len(), true
+				if y.Low != nil {
+					lo, known = ConstInt(y.Low)
+				}
+				if known && y.High != nil {
+					hi, known = ConstInt(y.High)
+				}
+				if known && hi-lo >= n {
+					return nil
+				}
+			}
+		}
+	}
+	pos := x.Pos()
+	if !pos.IsValid() {
+		for _, ref := range *x.Referrers() {
+			if ref.Pos().IsValid() {
+				pos = ref.Pos()
+				break
+			}
+		}
+	}
+	if !pos.IsValid() {
+		pos = blockPos(x.Block())
+	}
+	return &PanicSite{Detector: "D8.slice-to-array", Fn: fn, Pos: pos, Expr: AccessPath(x.X, 0),
+		Detail: fmt.Sprintf("conversion of the slice %s to an array of %d elements panics when the slice is shorter; no dominating test of its length", AccessPath(x.X, 0), n)}
 }
